@@ -76,13 +76,13 @@ pub enum Fact {
 }
 
 /// harness-side shadow state shared by all replicas of one history
-#[derive(Clone, Debug, Default)]
+#[derive(Clone, Debug)]
 pub struct Shadow {
     pub uniq: u32,
-    pub ndots: [u64; 8],
-    pub totals: [[u128; 2]; 8],
+    pub ndots: [u64; 256],
+    pub totals: [[u128; 2]; 256],
     pub lamport: u64,
-    pub nwrites: [u64; 8],
+    pub nwrites: [u64; 256],
     /// MerkleReg: hash -> node index (= op id)
     pub node_of_hash: HashMap<[u8; 32], usize>,
     pub next_op_id: usize,
@@ -90,6 +90,11 @@ pub struct Shadow {
     pub misuse: bool,
     /// MVReg equal-values configuration
     pub equal_vals: bool,
+}
+impl Default for Shadow {
+    fn default() -> Self {
+        Shadow { uniq: 0, ndots: [0; 256], totals: [[0; 2]; 256], lamport: 0, nwrites: [0; 256], node_of_hash: HashMap::new(), next_op_id: 0, misuse: false, equal_vals: false }
+    }
 }
 impl Shadow {
     pub fn uniq(&mut self) -> u32 {
